@@ -167,10 +167,11 @@ func main() {
 			}
 			return
 		}
-		for _, rid := range prop.Rules {
-			if *onlyRule != "" && rid != *onlyRule {
-				continue
-			}
+		ruleIDs := prop.Rules
+		if *onlyRule != "" {
+			ruleIDs = []string{*onlyRule} // debugging: any registered rule, whether or not the property lists it
+		}
+		for _, rid := range ruleIDs {
 			rule := rules.Registry[rid]
 			if rule == nil {
 				allObs = append(allObs, core.Obligation{Rule: rid, Key: "missing-rule", Verdict: core.Unresolved, Detail: "rule not registered"})
